@@ -28,9 +28,10 @@ def main() -> int:
     pids = [c["property_id"] for c in man["checks"]]
     base = os.path.join(VERIF, "refactorings")
     patches = []
-    for s in sorted(os.listdir(base)):
+    only = sys.argv[1:]
+    for s in sorted(os.listdir(base), key=lambda x: (len(x), x)):
         d = os.path.join(base, s)
-        if os.path.isdir(d):
+        if os.path.isdir(d) and (not only or s in only):
             patches += [(s, f) for f in sorted(os.listdir(d)) if f.endswith(".diff")]
     scratch = tempfile.mkdtemp(prefix="refcheck_")
     wt = scratch + "/wt"
@@ -57,6 +58,14 @@ def main() -> int:
     finally:
         subprocess.run(["git", "-C", "/repo", "worktree", "remove", "--force", wt])
         subprocess.run(["rm", "-rf", scratch])
+    if only and os.path.exists(os.path.join(base, "RESULTS.md")):
+        # a partial run replaces the rows of the sets it was given and keeps the others
+        keep = []
+        for line in open(os.path.join(base, "RESULTS.md")):
+            cells = [c.strip() for c in line.rstrip().strip("|").split(" | ")] if line.startswith("| RF") else []
+            if len(cells) >= 3 and cells[0] not in only:
+                keep.append(tuple((cells + ["", ""])[:5]))
+        rows = sorted(keep + rows, key=lambda r: (len(r[0]), r[0], r[1]))
     with open(os.path.join(base, "RESULTS.md"), "w") as fh:
         fh.write("# Behaviour-preserving refactorings vs. checks (written by tools/run_refactorings.py)\n\n")
         fh.write("| set | patch | verdict | checks | first line |\n|---|---|---|---|---|\n")
